@@ -12,15 +12,19 @@ open Model
 
 theorem min_hash_to_curve_eq (sr : SR) (r1 r2 : ℕ) :
     Gen.Formulas.min_hash_to_curve sr r1 r2 = hashToCurve sr ZETA_min Ext.addMin r1 r2 := by
-  unfold Gen.Formulas.min_hash_to_curve hashToCurve
-  simp only [min_elligator_eq, min_add_eq]
-  cases elligator sr ZETA_min r1 <;> cases elligator sr ZETA_min r2 <;> rfl
+  first
+  | (unfold Gen.Formulas.min_hash_to_curve; with_reducible rfl)        -- untranslated: the fallback
+  | (unfold Gen.Formulas.min_hash_to_curve hashToCurve
+     simp only [min_elligator_eq, min_add_eq sr]
+     cases elligator sr ZETA_min r1 <;> cases elligator sr ZETA_min r2 <;> rfl)
 
 theorem ark_hash_to_curve_eq (sr : SR) (r1 r2 : ℕ) :
     Gen.Formulas.ark_hash_to_curve sr r1 r2 = hashToCurve sr ZETA Ext.addRef r1 r2 := by
-  unfold Gen.Formulas.ark_hash_to_curve hashToCurve
-  simp only [ark_elligator_eq]
-  cases elligator sr ZETA r1 <;> cases elligator sr ZETA r2 <;> rfl
+  first
+  | (unfold Gen.Formulas.ark_hash_to_curve; with_reducible rfl)        -- untranslated: the fallback
+  | (unfold Gen.Formulas.ark_hash_to_curve hashToCurve
+     simp only [ark_elligator_eq]
+     cases elligator sr ZETA r1 <;> cases elligator sr ZETA r2 <;> rfl)
 
 theorem min_encode_to_curve_eq (sr : SR) (r0 : ℕ) : Gen.Formulas.min_encode_to_curve sr r0 = elligator sr ZETA_min r0 := by
   unfold Gen.Formulas.min_encode_to_curve
